@@ -588,7 +588,7 @@ impl<'a> Gen<'a> {
             8 => ops.push(self.weak_op()),
             9 => ops.push(Act::TryUnwrap { reg: if self.rng.chance(1, 6) { Dst::G(self.glob()) } else { Dst::R(self.reg()) } }),
             10 => ops.push(Act::FinalizeAgain { reg: if self.rng.chance(1, 6) { Dst::G(self.glob()) } else { Dst::R(self.reg()) } }),
-            11 => ops.push(Act::Collect),
+            11 => ops.push(if self.rng.chance(1, 8) { Act::CollectInConfig } else { Act::Collect }),
             12 => ops.push(Act::CollectQuiet),
             13 => {
                 let a = match self.rng.idx(6) {
